@@ -273,4 +273,87 @@ theorem outside_link_untouched (base cur full : PathS) (h : properPrefix base fu
     fixSegs base cur full = none := by
   simp [fixSegs, h]
 
+/-! ### the project's encoding (and every other per-run argument) reaches every nesting depth -/
+
+/-- Every level of the walk hands all of its per-run arguments to the next one unchanged: in the
+    recursive `get_page_tree(...)` call every parameter of `get_page_tree` is passed, `topdir` is the
+    sub-directory, `parent` is the node just built, and every other parameter (`proj_copy_subdir`,
+    `output_dir`, `md`, `progress`, `encoding`, and whatever is added later) is the caller's own value
+    - none omitted (which would silently fall back to its default below the top directory).
+    Stated over the generated call table. -/
+theorem recursive_call_forwards :
+    ∀ p ∈ gptParams.map Prod.fst,
+      recCall.lookup p =
+        some (if p == (pt! "topdir") then (pt! "filename") else if p == (pt! "parent") then (pt! "node") else p) := by
+  decide
+
+/-- Both `PageNode(...)` calls (index.md of the directory, sibling page in the loop) pass every parameter
+    of `PageNode.__init__`; `md`, `output_dir`, `proj_copy_subdir` and `encoding` are the values of the
+    enclosing `get_page_tree` call, and `PageNode` decodes the file with exactly that `encoding`. -/
+theorem page_reads_forward :
+    (∀ p ∈ pageNodeParams.map Prod.fst,
+      indexNodeCall.lookup p =
+        some (if p == (pt! "path") then (pt! "index_file") else p) ∧
+      subNodeCall.lookup p =
+        some (if p == (pt! "path") then (pt! "filename") else if p == (pt! "parent") then (pt! "node") else p)) ∧
+    readTextArg = encParam := by
+  decide
+
+/-- `ford.main` starts the walk with the project's `encoding` setting. -/
+theorem main_passes_project_encoding :
+    mainCall.lookup encParam = some (pt! "proj_data.encoding") := by decide
+
+/-- **Every file at every nesting depth is decoded with the project's encoding.**  For every directory
+    tree on disk (any depth, any mixture of ASCII files, files written in the project's encoding and
+    files written in some other encoding) and every project encoding, what the walk of the source
+    under test reads is what a reader who uses the project's encoding for *every* file reads.
+    Depends on the generated call tables (`recCall`, `indexNodeCall`, `subNodeCall`, `readTextArg`,
+    the defaults in `gptParams` / `pageNodeParams`). -/
+theorem encoding_reaches_every_depth (enc : Str) (cs : List RawEntry) :
+    decodeL CallSites.gen enc cs = viewL enc cs :=
+  decodeL_gen enc cs
+
+/-- **Mirror, for every project encoding.**  The pages built from the directory on disk by a run with
+    `encoding = enc` are exactly the pages the property statement expects of that directory read in
+    `enc` - at every depth.  Same decidable exclusions as `mirror_partial` (known findings). -/
+theorem mirror_any_encoding_partial (v : Variant) (enc : Str) (cs : List RawEntry)
+    (hn : (names (viewL enc cs)).Nodup) (hwf : wfEntries (viewL enc cs) = true)
+    (hstems : plainStemsL (viewL enc cs) = true)
+    (hgp : gpFreeL v none (match indexMeta (viewL enc cs) with | some (m, _) => some m.copySub | none => none)
+            (viewL enc cs) = true)
+    (hnoab : ∀ q, getPageTreeRaw CallSites.gen v enc cs ≠ .abort q) (p : PathS) :
+    p ∈ resPaths (getPageTreeRaw CallSites.gen v enc cs) ↔ p ∈ expPages (viewL enc cs) := by
+  unfold getPageTreeRaw at hnoab ⊢
+  rw [decodeL_gen] at hnoab ⊢
+  exact getPageTree_mirror v _ hn hwf hstems hgp hnoab p
+
+/-- When the page directory is written in the project's encoding (every file ASCII or in `enc`), the
+    run produces exactly the tree of the correctly decoded directory, for every `enc`: no titled page
+    is lost or changed because of the encoding, at any depth. -/
+theorem project_encoding_loses_nothing (v : Variant) (enc : Str) (cs : List RawEntry)
+    (hw : writtenInL enc cs = true) :
+    getPageTreeRaw CallSites.gen v enc cs = getPageTree v (plainL cs) := by
+  unfold getPageTreeRaw
+  rw [decodeL_gen, viewL_writtenIn enc cs hw]
+
+/-- ... and this does depend on the call table: if the recursive call omits `encoding` (so that the
+    default `utf-8` is used below the top directory), a titled ISO-8859-1 page in a sub-directory of an
+    ISO-8859-1 project is lost while its top-level twin is kept. -/
+theorem encoding_not_forwarded_witness :
+    let c : CallSites := { CallSites.gen with recCall := CallSites.gen.recCall.filter (fun kv => kv.1 != encParam) }
+    let l1 : Str := pt! "iso-8859-1"
+    let w : List RawEntry :=
+      [.file (pt! "index.md") [] ⟨some ['T'], [], [], []⟩,
+       .file (pt! "c.md") l1 ⟨some ['C'], [], [], []⟩,
+       .dir (pt! "sub") [.file (pt! "index.md") [] ⟨some ['S'], [], [], []⟩,
+                         .file (pt! "c.md") l1 ⟨some ['D'], [], [], []⟩]]
+    writtenInL l1 w = true ∧
+    resPaths (getPageTreeRaw c Variant.asIs l1 w) =
+      [[pt! "index.html"], [pt! "c.html"], [pt! "sub", pt! "index.html"]] ∧
+    resPaths (getPageTreeRaw CallSites.gen Variant.asIs l1 w) =
+      [[pt! "index.html"], [pt! "c.html"], [pt! "sub", pt! "index.html"], [pt! "sub", pt! "c.html"]] ∧
+    expPages (viewL l1 w) =
+      [[pt! "index.html"], [pt! "c.html"], [pt! "sub", pt! "index.html"], [pt! "sub", pt! "c.html"]] := by
+  decide
+
 end Ford.C17
